@@ -27,6 +27,11 @@ func init() {
 // ---------- generator ----------
 
 func (g *gen) engValue(mem int) []byte {
+	if mem >= 4096 && g.chance(1, 40) {
+		// sizes that put the log entry at -1/0/+1 of k record payloads (fragment boundaries), short keys assumed
+		k := g.pick(1, 1, 2)
+		return g.bytesN(k*32768 - 17 - g.pick(1, 2, 3, 4, 6) + g.pick(-1, 0, 1, 13, 14, 15))
+	}
 	switch c := g.intn(100); {
 	case c < 4:
 		return nil // Put(k, nil): an empty value, not a deletion
@@ -90,7 +95,14 @@ func genEngineOps(g *gen, w *bufio.Writer, mem int, steps int) {
 					if bm > 8000 { // a batch entry must fit one log record (32 KB); the oversize branch belongs to C03
 						bm = 8000
 					}
-					parts = append(parts, "p", hx(k), hxv(g.engValue(bm)))
+					v := g.engValue(bm)
+					if len(v) > 30000 {
+						v = v[:30000]
+					}
+					if mem >= 4096 && g.chance(1, 6) { // transactions beyond the 64 KB log buffer
+						v = g.bytesN(20000 + g.intn(10000))
+					}
+					parts = append(parts, "p", hx(k), hxv(v))
 				}
 			}
 			parts[1] = strconv.Itoa((len(parts) - 2) / 3)
